@@ -5,9 +5,13 @@
   `Lemmas/C06FixedPoint.lean` (`true_coordinates_fixed_point_codeMatrix`); here it is a property theorem,
   with the regular (full column rank) and the singular instances and a witness for each.
 
-  By `Lemmas/AssemblyAgree.lean` the matrix is also C07's `codeMatrixOf` of the same observations and the
-  fold is C14's `Rev.assemble` order; by `Props/C01/ProjectEquations.lean` it is the `rows` field of the
-  `NetProblem` that `PE.projectEquations` hands to the solvers.
+  Lemmas-level facts about the same matrix (in no property file of their own): `Lemmas/AssemblyAgree.lean` —
+  `codeMatrixOf_eq_codeMatrix`, `codeMatrixOf_obOf_eq_codeMatrix`: it is C07's `codeMatrixOf` of the same
+  observations (given `passFrom = .ok` from `IdxState.init`, identity order); `Rev.assemble_visits`: C14's
+  `Rev.assemble` visits the observations in the same ORDER (visiting order only, abstract `step`).  That the pass's
+  rows are the `rows` field of the `NetProblem` which `PE.projectEquations` hands to the solvers is the field `rows`
+  of `PE.Fresh` (`Lemmas/ProjectEquations.lean`, `assemble_fresh`, with `pe_final`); it is used by
+  `C06_exact_network_solution_zero` (`Props/C06Network.lean`), not stated in `Props/C01/ProjectEquations.lean`.
 
   The stopping test is `TL.testLinearization` (Gama/Model/TestLinearization.lean): the loop of `TestLinearization()`
   over the observations of the pass, every `TestLinearizationVisitor::visit` REGENERATED from the source
